@@ -40,7 +40,8 @@ structure TaskSt where
   futDrops : Nat
   resTaken : Nat
   resDrops : Nat
-  slotDrops : Nat
+  slotSets : Nat             -- join wakers written into the slot
+  slotDrops : Nat            -- join wakers dropped from the slot
   deallocs : Nat
   uaf : Nat                  -- accesses after deallocation
   badPolls : Nat             -- polls of a completed or cancelled task
@@ -77,6 +78,14 @@ def dropRef (t : TaskSt) : TaskSt :=
 def makeHot (e : Exec) (id : Nat) : Exec :=
   if e.cold.contains id then { e with cold := e.cold.erase id, hot := e.hot ++ [id] } else e
 
+/-- `TaskQueue::make_cold` -/
+def makeCold (e : Exec) (id : Nat) : Exec :=
+  if e.hot.contains id then { e with hot := e.hot.erase id, cold := e.cold ++ [id] } else e
+
+/-- `TaskQueue::remove` -/
+def removeTask (e : Exec) (id : Nat) : Exec :=
+  { e with cold := e.cold.erase id, hot := e.hot.erase id }
+
 /-- `Local::schedule` (home thread; no cross-thread wakes pending in this single-threaded model) -/
 def scheduleLocal (e : Exec) (id : Nat) : Exec :=
   match e.get? id with
@@ -93,49 +102,61 @@ def taskDropByExecutor (t : TaskSt) : TaskSt :=
     { t with slotDrops := t.slotDrops + 1, slot := none }
   else t
 
+/-- what `Task::run` did -/
+inductive RunKind where
+  | dropped      -- cancelled: not polled, `Task::drop`, removed
+  | pending      -- polled, Pending
+  | wokeSelf     -- polled, woke itself, Pending
+  | finished     -- polled, Ready: result published, `Task::drop`, removed
+  deriving DecidableEq, Repr
+
+/-- `Task::run` on the task alone; on Ready (cancelled, or the future finished) also `Task::drop` and the
+release of the executor's reference. Third component: the join waker woken on completion. -/
+def runTask (t : TaskSt) : TaskSt × RunKind × Option Nat :=
+  let old := t.word
+  let t := { t with word := TaskState.unschedule old }
+  if TaskState.isCancelled old then
+    -- not polled; Ready ⇒ `task.drop()`, `queue.remove(id)`, the executor's reference goes away
+    (dropRef (taskDropByExecutor t), .dropped, none)
+  else
+    let bad := if TaskState.isCompleted old then 1 else 0
+    match t.script with
+    | [] | .pending :: _ =>
+      ({ t with polls := t.polls + 1, badPolls := t.badPolls + bad, script := t.script.drop 1 }, .pending, none)
+    | .wakeSelf :: rest =>
+      ({ t with polls := t.polls + 1, badPolls := t.badPolls + bad, script := rest }, .wokeSelf, none)
+    | .cloneWaker :: rest =>
+      ({ t with polls := t.polls + 1, badPolls := t.badPolls + bad, script := rest,
+                word := TaskState.inc t.word, wakers := t.wakers + 1 }, .pending, none)
+    | o :: rest =>
+      -- Ready (value or caught panic): the future is dropped, the result written, then published
+      let st := if o = .panic then Storage.resultPanic else Storage.resultOk
+      let t := { t with polls := t.polls + 1, badPolls := t.badPolls + bad, script := rest,
+                        futDrops := t.futDrops + 1, storage := st }
+      let old2 := t.word
+      let t := { t with word := TaskState.finishRunning old2 }
+      let woken := if TaskState.hasWaker old2 && !TaskState.isSettingWaker old2 then t.slot else none
+      (dropRef (taskDropByExecutor t), .finished, woken)
+
 /-- `Task::run` + the tail of the loop body of `Executor::tick` for one task id that has just been made
 cold. Returns the new executor state and whether the task was polled. -/
 def runOne (e : Exec) (id : Nat) : Exec × Bool :=
   match e.get? id with
   | none => (e, false)
   | some t =>
-    let old := t.word
-    let t := { t with word := TaskState.unschedule old }
-    if TaskState.isCancelled old then
-      -- not polled; Ready ⇒ `task.drop()`, `queue.remove(id)`, the executor's reference goes away
-      let t := dropRef (taskDropByExecutor t)
-      ({ (e.setTask id t) with cold := e.cold.erase id, hot := e.hot.erase id }, false)
-    else
-      let bad := if TaskState.isCompleted old then 1 else 0
-      match t.script with
-      | [] | .pending :: _ =>
-        (e.setTask id { t with polls := t.polls + 1, badPolls := t.badPolls + bad, script := t.script.drop 1 }, true)
-      | .wakeSelf :: rest =>
-        let e := e.setTask id { t with polls := t.polls + 1, badPolls := t.badPolls + bad, script := rest }
-        (scheduleLocal e id, true)
-      | .cloneWaker :: rest =>
-        let t := { t with polls := t.polls + 1, badPolls := t.badPolls + bad, script := rest,
-                          word := TaskState.inc t.word, wakers := t.wakers + 1 }
-        (e.setTask id t, true)
-      | o :: rest =>
-        -- Ready (value or caught panic): the future is dropped, the result written, then published
-        let st := if o = .panic then Storage.resultPanic else Storage.resultOk
-        let t := { t with polls := t.polls + 1, badPolls := t.badPolls + bad, script := rest,
-                          futDrops := t.futDrops + 1, storage := st }
-        let old2 := t.word
-        let t := { t with word := TaskState.finishRunning old2 }
-        let woken := if TaskState.hasWaker old2 && !TaskState.isSettingWaker old2 then
-            match t.slot with
-            | some w => e.woken ++ [w]
-            | none => e.woken
-          else e.woken
-        let t := dropRef (taskDropByExecutor t)
-        ({ (e.setTask id t) with cold := e.cold.erase id, hot := e.hot.erase id, woken := woken }, true)
+    match runTask t with
+    | (t, .dropped, _) => (removeTask (e.setTask id t) id, false)
+    | (t, .pending, _) => (e.setTask id t, true)
+    | (t, .wokeSelf, _) => (scheduleLocal (e.setTask id t) id, true)
+    | (t, .finished, w) => ({ removeTask (e.setTask id t) id with woken := e.woken ++ w.toList }, true)
 
 /-- successor of `id` in the hot list (`TaskQueue::next_hot`) -/
 def nextHot : List Nat → Nat → Option Nat
   | [], _ => none
   | x :: rest, id => if x = id then rest.head? else nextHot rest id
+
+/-- loop body of `Executor::tick`: `make_cold(id)`, `take`, `run`, `drop`+`remove` or `reset` -/
+def tickStep (e : Exec) (id : Nat) : Exec × Bool := runOne (makeCold e id) id
 
 /-- the loop of `Executor::tick`: `iter_hot().take(n)`; the iterator fetches the successor of the
 current id *before* the loop body runs. Returns the ids polled, in order. -/
@@ -144,15 +165,13 @@ def tickLoop : Nat → Option Nat → Exec → List Nat → Exec × List Nat
   | _, none, e, log => (e, log)
   | n + 1, some id, e, log =>
     let succ := nextHot e.hot id
-    -- `make_cold(id)`
-    let e := if e.hot.contains id then { e with hot := e.hot.erase id, cold := e.cold ++ [id] } else e
-    let (e, polled) := runOne e id
-    tickLoop n succ e (if polled then log ++ [id] else log)
+    let r := tickStep e id
+    tickLoop n succ r.1 (if r.2 then log ++ [id] else log)
 
 /-- `Executor::tick` with `max_interval = n`; returns the ids polled and `has_hot` -/
 def tick (e : Exec) (n : Nat) : Exec × List Nat × Bool :=
-  let (e, log) := tickLoop n e.hot.head? e []
-  (e, log, !e.hot.isEmpty)
+  let r := tickLoop n e.hot.head? e []
+  (r.1, r.2, !r.1.hot.isEmpty)
 
 inductive JoinResult where
   | pending | ok | panicked | cancelled | invalid
@@ -163,56 +182,56 @@ def spawn (e : Exec) (script : List Outcome) : Exec × Nat :=
   let id := e.tasks.length
   let t : TaskSt := { word := TaskState.new 2, storage := .future, slot := none, script := script,
                       shared := true, handle := true, wakers := 0, polls := 0, futDrops := 0,
-                      resTaken := 0, resDrops := 0, slotDrops := 0, deallocs := 0, uaf := 0, badPolls := 0 }
+                      resTaken := 0, resDrops := 0, slotSets := 0, slotDrops := 0, deallocs := 0, uaf := 0,
+                      badPolls := 0 }
   ({ e with tasks := e.tasks ++ [t], hot := e.hot ++ [id] }, id)
 
-/-- `JoinHandle::poll` on the home thread with waker `w` (`Local::poll`) -/
+/-- `Local::poll` with waker `w` on a task whose handle is live (Ready ⇒ `self.task = None`) -/
+def pollTask (t : TaskSt) (w : Nat) : TaskSt × JoinResult :=
+  let st := TaskState.load t.word
+  if TaskState.hasResult st then
+    let r := if t.storage = .resultPanic then JoinResult.panicked else JoinResult.ok
+    let t := { t with word := TaskState.setHasResultFalse t.word, resTaken := t.resTaken + 1, storage := .empty }
+    (dropRef { t with handle := false }, r)
+  else if TaskState.isCancelled st then
+    (dropRef { t with handle := false }, .cancelled)
+  else if !TaskState.isCompleted st then
+    if TaskState.hasWaker st && t.slot = some w then (t, .pending)
+    else
+      let t := if TaskState.hasWaker st then { t with slotDrops := t.slotDrops + 1 } else t
+      ({ t with slot := some w, slotSets := t.slotSets + 1, word := TaskState.setHasWakerTrue t.word }, .pending)
+  else (t, .invalid)   -- `unreachable!("Task is completed but has no result")`
+
+/-- `JoinHandle::poll` on the home thread with waker `w` -/
 def handlePoll (e : Exec) (id w : Nat) : Exec × JoinResult :=
   match e.get? id with
   | none => (e, .invalid)
   | some t =>
     if !t.handle then (e, .invalid) else
-    let st := TaskState.load t.word
-    if TaskState.hasResult st then
-      let r := if t.storage = .resultPanic then JoinResult.panicked else JoinResult.ok
-      let t := { t with word := TaskState.setHasResultFalse t.word, resTaken := t.resTaken + 1, storage := .empty }
-      -- Ready ⇒ `self.task = None`
-      let t := dropRef { t with handle := false }
-      (e.setTask id t, r)
-    else if TaskState.isCancelled st then
-      let t := dropRef { t with handle := false }
-      (e.setTask id t, .cancelled)
-    else if !TaskState.isCompleted st then
-      if TaskState.hasWaker st && t.slot = some w then (e, .pending)
-      else
-        let t := if TaskState.hasWaker st then { t with slotDrops := t.slotDrops + 1 } else t
-        let t := { t with slot := some w, word := TaskState.setHasWakerTrue t.word }
-        (e.setTask id t, .pending)
-    else (e, .invalid)   -- `unreachable!("Task is completed but has no result")`
+    let r := pollTask t w
+    (e.setTask id r.1, r.2)
+
+/-- `Task::cancel(drop_result)` after the `schedule()` call: the accesses to the task itself -/
+def cancelWord (t : TaskSt) (dropResult : Bool) : TaskSt :=
+  let old := t.word
+  let t := { t with word := TaskState.setCancelled old }
+  if dropResult && TaskState.hasResult old then
+    { t with word := TaskState.setHasResultFalse t.word, resDrops := t.resDrops + 1, storage := .empty }
+  else t
 
 /-- `Task::cancel(drop_result)` -/
 def cancelTask (e : Exec) (id : Nat) (dropResult : Bool) : Exec :=
-  let e := scheduleLocal e id
   match e.get? id with
   | none => e
-  | some t =>
-    let old := t.word
-    let t := { t with word := TaskState.setCancelled old }
-    let t := if dropResult && TaskState.hasResult old then
-        { t with word := TaskState.setHasResultFalse t.word, resDrops := t.resDrops + 1, storage := .empty }
-      else t
-    e.setTask id t
+  | some t => (scheduleLocal e id).setTask id (cancelWord t dropResult)
 
-/-- `impl Drop for JoinHandle` -/
+/-- `impl Drop for JoinHandle`: `task.cancel(true)`, then the handle's reference goes away -/
 def handleDrop (e : Exec) (id : Nat) : Exec × Bool :=
   match e.get? id with
   | none => (e, false)
   | some t =>
     if !t.handle then (e, false) else
-    let e := cancelTask e id true
-    match e.get? id with
-    | none => (e, false)
-    | some t => (e.setTask id (dropRef { t with handle := false }), true)
+    ((scheduleLocal e id).setTask id (dropRef { cancelWord t true with handle := false }), true)
 
 /-- `JoinHandle::detach` -/
 def handleDetach (e : Exec) (id : Nat) : Exec × Bool :=
@@ -241,15 +260,64 @@ def wakerDrop (e : Exec) (id : Nat) : Exec × Bool :=
     if t.wakers = 0 then (e, false)
     else (e.setTask id (dropRef { t with wakers := t.wakers - 1 }), true)
 
+/-- what `Executor::clear` does to one task of the map -/
+def clearTask (e : Exec) (id : Nat) : Exec :=
+  match e.get? id with
+  | none => e
+  | some t => e.setTask id (dropRef (taskDropByExecutor t))
+
 /-- `Executor::clear` / `Drop`: every task still in the map is dropped by the executor -/
 def clearAll (e : Exec) : Exec :=
-  let ids := e.hot ++ e.cold
-  let e := ids.foldl (fun e id =>
-    match e.get? id with
-    | none => e
-    | some t => e.setTask id (dropRef (taskDropByExecutor t))) e
-  { e with hot := [], cold := [] }
+  { (e.hot ++ e.cold).foldl clearTask e with hot := [], cold := [] }
 
 def execDrop (e : Exec) : Exec := { clearAll e with alive := false }
+
+/-! ## Operations of a program (what the driver and the harness execute) -/
+
+/-- the join waker `JoinHandle::cancel(self).await` is polled with in the harness (a no-op waker) -/
+def noopWaker : Nat := 999
+
+inductive Op where
+  | spawn (script : List Outcome)
+  | tick (n : Nat)               -- one `Executor::tick` with `max_interval = n`
+  | hpoll (id w : Nat)
+  | hdrop (id : Nat)
+  | hdetach (id : Nat)
+  | hcancel (id : Nat)           -- `JoinHandle::cancel`: `task.cancel(false)` then poll
+  | wake (id : Nat)
+  | wdrop (id : Nat)
+  | xdrop
+  deriving DecidableEq, Repr
+
+inductive Resp where
+  | invalid
+  | spawned (id : Nat)
+  | polled (log : List Nat) (hot : Bool)
+  | join (r : JoinResult)
+  | done (ok : Bool)
+  | cancel (r : JoinResult)
+  deriving DecidableEq, Repr
+
+/-- one operation: new state and what the caller observes -/
+def applyR (e : Exec) : Op → Exec × Resp
+  | .spawn sc => if !e.alive then (e, .invalid) else let r := spawn e sc; (r.1, .spawned r.2)
+  | .tick n => if !e.alive then (e, .invalid) else let r := tick e n; (r.1, .polled r.2.1 r.2.2)
+  | .hpoll id w => let r := handlePoll e id w; (r.1, .join r.2)
+  | .hdrop id => let r := handleDrop e id; (r.1, .done r.2)
+  | .hdetach id => let r := handleDetach e id; (r.1, .done r.2)
+  | .hcancel id =>
+    let r := handleCancel e id
+    if !r.2 then (e, .invalid) else
+    -- `cancel().await`: the handle is polled right away
+    let p := handlePoll r.1 id noopWaker
+    (p.1, .cancel p.2)
+  | .wake id => let r := wakeLocal e id; (r.1, .done r.2)
+  | .wdrop id => let r := wakerDrop e id; (r.1, .done r.2)
+  | .xdrop => if !e.alive then (e, .invalid) else (execDrop e, .done true)
+
+def apply (e : Exec) (op : Op) : Exec := (applyR e op).1
+
+/-- the state after a whole program, from a fresh executor -/
+def run (ops : List Op) : Exec := ops.foldl apply Exec.init
 
 end Compio.Executor
